@@ -2,10 +2,11 @@ META = {
     "assumptions": ["allocation failure out of scope (--no-malloc-may-fail)",
                     "block / region sizes scaled (directory block 64/32 bytes, journal block 64 bytes, extent root only); "
                     "each buffer is a heap object of exactly the advertised size so CBMC's pointer checks and the ASan replay are tight",
+                    "intnode_mem: db->blockcnt < numblocks (check_dir_block sizes dx_block[] from the directory's block list); eablock_mem: i_file_acl inside the filesystem, block not seen before",
                     "memsafe queries use the default SAT back end only (external-solver runs cannot label multi-property failures)"],
     "outside": ["whole-tool runs (e2fsck, debugfs, dumpe2fs, tune2fs, resize2fs, e2image, e2undo, e2freefrag mains), exit status, stack depth, hangs in loops over the whole image",
                 "ext2fs_open2 superblock geometry validation, xattr parsers (read_xattrs_from_buffer, check_ext_attr_header), inline-data EA path, "
-                "qcow2 / undo-file headers, mmp / orphan blocks, e2fsck pass1/pass2 checkers, do_one_pass tag loop, __get_dirent_tail (needs blocksize >= 1024): no harness yet",
+                "qcow2 / undo-file headers, mmp / orphan blocks, e2fsck pass1/pass2 checkers other than check_ext_attr (eablock_mem; its callee check_large_ea_inode is cut, the hash functions are replaced by their read contract) and parse_int_node (intnode_mem), do_one_pass tag loop, __get_dirent_tail (needs blocksize >= 1024): no harness yet",
                 "ext2fs_extent_get below the root (depth >= 1): the walk harness does not reach a verdict within 8 GB (1-2 M SAT variables per step); "
                 "only ext2fs_extent_header_verify (all inputs) and depth-0 walks (thorough tier) are decided",
                 "formation / comparison of out-of-object pointers without access (count_tags tagp += 16 past the block end) is reported as UB-REPORT, not decided as a defect"],
@@ -108,13 +109,45 @@ def _readbuf():
     raise RuntimeError("C15 readbuf harness missing")
 HARNESSES += _readbuf()
 HARNESSES += _e2undo("C06")   # the real main() of misc/e2undo.c (sources in harness/E2UNDO)
+# e2fsck pass-2 htree index node reader on arbitrary node bytes: dx_block[] (heap array of exactly numblocks elements) is never indexed out of range
+def _int_cfg(blk, cnt, nbk, ans, tier="quick"):
+    return {"BLK": blk, "BLOCKCNT": cnt, "NBK": nbk, "ANS": ans, "_tier": tier}
+HARNESSES.append(
+    dict(name="intnode_mem", src="intnode_mem.c", funcs=["parse_int_node", "clear_htree"],
+         stubs=["fix_problem", "e2fsck_read_inode", "e2fsck_write_inode", "e2fsck_rehash_dir_later"],
+         configs=[_int_cfg(48, 1, 3, 2), _int_cfg(48, 1, 3, 0), _int_cfg(64, 0, 3, 2), _int_cfg(64, 0, 3, 0),
+                  _int_cfg(48, 1, 3, 1), _int_cfg(64, 0, 2, 1),
+                  _int_cfg(64, 2, 4, 2, "thorough"), _int_cfg(64, 2, 4, 0, "thorough")],
+         checks="memsafe", unwind=3, unwindset=["main.%d:70" % i for i in range(4)] + ["parse_int_node.0:9"], backends=["default"],
+         cap_quick=300,
+         bound="one index node of 48 bytes (interior, <= 5 entries) / 64 bytes (root, dx_root_info.info_length any value 0..19, <= 5 entries), every byte "
+               "symbolic, as heap object of exactly that size; directory of 3 blocks: dx_block[] a heap array of exactly 3 elements, prior flags symbolic; "
+               "metadata_csum on/off, failed_csum, answers no / yes / any mix per query"))
+# e2fsck pass-1 EA block checker on arbitrary block bytes
+def _ea_cfg(ans, ver=2, bs=72, tier="quick"):
+    k = (bs - 32) // 16
+    return {"BS": bs, "ANS": ans, "EAVER": ver, "_tier": tier,
+            "_unwindset": ["main.0:%d" % (bs + 290), "main.1:%d" % (bs + 290), "main.2:%d" % (bs + 290), "ext2fs_read_ext_attr3.0:%d" % (bs + 2), "ref_parse.0:%d" % (bs // 4),
+                           "check_ext_attr.0:%d" % (k + 2), "inc_ea_inode_refs.0:%d" % (k + 2), "region_allocate.0:%d" % (2 * k + 4), "region_free.0:%d" % (2 * k + 4)]}
+HARNESSES.append(
+    dict(name="eablock_mem", src="eablock_mem.c", extra_src=["e2fsck/region.c", "lib/ext2fs/blknum.c"],
+         funcs=["check_ext_attr", "region_create", "region_allocate", "region_free", "inc_ea_inode_refs", "mark_block_used"],
+         stubs=["ext2fs_read_ext_attr3", "ext2fs_ext_attr_hash_entry", "ext2fs_ext_attr_hash_entry_signed", "fix_problem"],
+         cut_statics={"e2fsck/pass1.c": ["check_large_ea_inode"]},
+         configs=[_ea_cfg(0), _ea_cfg(2), _ea_cfg(1), _ea_cfg(0, ver=1, tier="thorough"), _ea_cfg(0, bs=88, tier="thorough"), _ea_cfg(2, bs=88, tier="thorough")],
+         checks="memsafe", unwind=3, backends=["default"], cap_quick=300, cbmc_flags=["--object-bits", "10"],
+         bound="EA block of 72 (thorough: 88) bytes, EVERY byte symbolic (no well-formedness assumption: magic, h_blocks, names, offsets, e_value_inum, "
+               "e_value_size up to 2^32-1), heap buffer = block + 288 scratch bytes (real: 3 * blocksize); up to 2 (3) full entries; read status ok / "
+               "checksum failure, answers no / yes / any mix per query, xattr format v2 (v1 in one query)"))
 
 MANIFEST = {
     "text": "Bounded-exhaustive parser safety: for each harnessed parser (directory block iteration incl. deleted-entry scan and inline "
-            "regions, journal descriptor-tag counting and revoke-record scan, extent header gate, htree count/limit locator) every byte of "
+            "regions, journal descriptor-tag counting and revoke-record scan, extent header gate, htree count/limit locator, e2fsck pass-2 htree index node reader "
+            "parse_int_node incl. the dx_block[] subscripts taken from the node, e2fsck pass-1 EA block checker check_ext_attr incl. region accounting and what it hands to the entry hash) every byte of "
             "the untrusted buffer is symbolic within the stated (scaled) size; the solver decides absence of out-of-bounds access, "
             "signed overflow, undefined shifts, division by zero, termination within the buffer-derived loop bound, plus the hand-out "
             "contracts callers rely on. Whole tools and the parsers listed under 'outside' are not covered.",
     "note": "Trusted: CBMC's C semantics and memory model, the stubs listed in evidence (block reads deliver the hostile bytes, callbacks do "
-            "not modify entries), scaled block sizes. One genuine defect found (ext2fs_validate_entry bound on inline regions).",
+            "not modify entries; fix_problem answers no / yes / any mix per query; EA entry hash replaced by its read contract), scaled block sizes "
+            "(EA block buffer = block + 288 scratch bytes for the caller's 3 * blocksize; dx_root_info.info_length <= 19 in the scaled root node). One genuine defect found (ext2fs_validate_entry bound on inline regions).",
 }
